@@ -221,7 +221,13 @@ def gen_case(rng):
             if rng.random() < 0.4:
                 d2 = rng.sample(DIRS, rng.randint(0, 3))
             more.append([m2, d2, [d for d in defs if rng.random() < 0.7], []])
-    if dirs and rng.random() < 0.45:
+    if len(dirs) >= 2 and rng.random() < 0.3:
+        # a directory named twice with another one in between (generated build lines): the first
+        # occurrence decides its place in the search order
+        k = rng.randrange(len(dirs) - 1)
+        dirs = dirs + [dirs[k]]
+        entry[1] = dirs
+    elif dirs and rng.random() < 0.45:
         # the directories are given on a command line as -I / -isystem (1 = -isystem) and go
         # through config.ArgumentParser.parse_args
         entry.append([1 if rng.random() < 0.5 else 0 for _ in dirs])
@@ -231,6 +237,10 @@ def gen_case(rng):
 
 
 CORPUS_EXTRA = [
+    # -I inc1 -I inc2 -I inc1: the repeated directory keeps its FIRST position
+    [[[["inc1", "h.h"], [["Def", "FROM_1", "E"]]], [["inc2", "h.h"], [["Def", "FROM_2", "E"]]],
+      [["src", "a.c"], [["Inc", ["A", ["h.h"]]], ["If", ["Defd", "FROM_1"]], ["Code"], ["Else"], ["Code"], ["Endif"]]]],
+     [["src", "a.c"], [["inc1"], ["inc2"], ["inc1"]], [], []]],
     # the same #pragma once header forced twice (-include h.h -include h.h) is read once
     [[[["src", "a.c"], [["Code"]]],
       [["src", "h.h"], [["Once"], ["If", ["Defd", "SEEN"]], ["Code"], ["Endif"], ["Def", "SEEN", "E"]]]],
